@@ -5,7 +5,7 @@
    generalize = px.Generalize, generic = px.GenericType) over Model/Lattice.v (`asg rx true` = GuardedIsAssignable
    + IsAssignable as the code is, `inst rx true` = IsInstance).  `rx` (Go regexp matching) is arbitrary. *)
 From Coq Require Import ZArith NArith Bool List.
-From PcoreV Require Import Model.Base Model.Ty Model.Lattice Model.Infer Proofs.LatticeBasics Proofs.InferProofs.
+From PcoreV Require Import Model.Base Model.Ty Model.Lattice Model.Infer Proofs.LatticeBasics Proofs.LatticeRule Proofs.InferProofs Proofs.InferCommon Proofs.InferInst.
 Import ListNotations.
 Open Scope Z_scope.
 
@@ -69,3 +69,153 @@ Proof. vm_compute. repeat split; reflexivity. Qed.
 Example C04_nonfinite_float_infer_refuted :
   exists v, inst (fun _ _ => false) true (infer (fun _ _ => false) v) v = false.
 Proof. exists VNaN. vm_compute. reflexivity. Qed.
+
+(* ---- a type that accepts the detailed type of a value has the value as an instance ---- *)
+(* The full statement is this one with vals = all values and excl = no exclusion. *)
+Definition C04_detailed_sound_statement (vals : (str -> str -> bool) -> value -> bool) (excl : ty -> ty -> bool) : Prop :=
+  forall (rx : str -> str -> bool) (v : value) (T : ty),
+    vals rx v = true -> excl T (infer_detailed rx v) = true ->
+    asg rx true T (infer_detailed rx v) = true -> inst rx true T v = true.
+
+(* Proved with the open finding C04/byspec-struct-accepts-hash-sound excluded by the syntactic guard of C01
+   (rule_free T D: T contains no Struct or D contains no Hash); `_partial`: dv_ok as above. *)
+Theorem C04_detailed_sound_partial : C04_detailed_sound_statement dv_ok LatticeRule.rule_free.
+Proof. intros rx v T Hv. exact (detailed_sound_core rx v Hv T). Qed.
+Print Assumptions C04_detailed_sound_partial.
+
+Example C04_detailed_sound_nonvacuous :
+  let rx := fun _ _ => false in
+  let S := TStruct [([97%N], (TStringVal [97%N], TInteger 0 5)); ([98%N], (TOptional (TStringVal [98%N]), TOptional TString))] in
+  let h := VHash [(VStr [97%N], VInt 1); (VStr [98%N], VUndef)] in
+  let T := TTuple [TVariant [S; TInteger 0 0]; TArray (TNotUndef TScalar) 0 3] true 1 2 in
+  let v := VArr [h; VArr [VFloat 2; VRegexp [97%N]]] in
+  dv_ok rx v = true /\ LatticeRule.rule_free T (infer_detailed rx v) = true /\
+  asg rx true T (infer_detailed rx v) = true /\ inst rx true T v = true /\
+  asg rx true T (infer_detailed rx (VArr [h; VArr [VUndef]])) = false.
+Proof. vm_compute. repeat split; reflexivity. Qed.
+
+(* open finding C04/byspec-struct-accepts-hash-sound: the unguarded statement fails in the model as in the code *)
+Example C04_byspec_struct_accepts_hash_refuted :
+  exists T v, dv_ok (fun _ _ => false) v = true /\
+              asg (fun _ _ => false) true T (infer_detailed (fun _ _ => false) v) = true /\
+              inst (fun _ _ => false) true T v = false.
+Proof.
+  exists (TStruct [([97%N], (TOptional (TStringVal [97%N]), TInteger MinI MaxI))]), (VHash [(VInt 1, VInt 1)]).
+  vm_compute. repeat split; reflexivity.
+Qed.
+
+(* ---- conversely, for values without undef-valued hash entry ---- *)
+(* cv_ok v = dv_ok v + no undef-valued hash entry (the exclusion the property names) + finite floats (finding);
+   cwf T = Struct types as the constructors build them + no Tuple with more element types than its minimum size
+   (open finding C04/tuple-slots-beyond-size). *)
+Theorem C04_detailed_complete_partial :
+  forall (rx : str -> str -> bool) (v : value) (T : ty),
+    cv_ok rx v = true -> cwf T = true ->
+    inst rx true T v = true -> asg rx true T (infer_detailed rx v) = true.
+Proof. intros rx v T Hv. exact (detailed_complete_core rx v Hv T). Qed.
+Print Assumptions C04_detailed_complete_partial.
+
+Example C04_detailed_complete_nonvacuous :
+  let rx := fun _ _ => false in
+  let S := TStruct [([97%N], (TStringVal [97%N], TInteger 0 5)); ([98%N], (TOptional (TStringVal [98%N]), TOptional TString))] in
+  let T := TArray (TVariant [S; THash TScalarData (TVariant [TString; TArray TAny 0 0]) 0 2; TTuple [TFloat 0 5] true 1 3]) 1 4 in
+  let v := VArr [VHash [(VStr [97%N], VInt 1)]; VHash [(VInt 1, VStr [97%N]); (VStr [], VArr [])]; VArr [VFloat 2; VFloat 3]] in
+  cv_ok rx v = true /\ cwf T = true /\ inst rx true T v = true /\ asg rx true T (infer_detailed rx v) = true.
+Proof. vm_compute. repeat split; reflexivity. Qed.
+
+(* the exclusion the property names is needed: an undef-valued entry makes the inferred key optional *)
+Example C04_undef_entry_excluded :
+  let rx := fun _ _ => false in
+  let T := TStruct [([97%N], (TStringVal [97%N], TUndef))] in
+  let v := VHash [(VStr [97%N], VUndef)] in
+  cwf T = true /\ no_undef_entry v = false /\ inst rx true T v = true /\ asg rx true T (infer_detailed rx v) = false.
+Proof. vm_compute. repeat split; reflexivity. Qed.
+
+(* open finding C04/tuple-slots-beyond-size: [1] is an instance of Tuple[Integer,String,1,2], which does not
+   accept its detailed type Tuple[Integer[1,1]] *)
+Example C04_tuple_slots_beyond_size_refuted :
+  exists T v, cv_ok (fun _ _ => false) v = true /\ inst (fun _ _ => false) true T v = true /\
+              asg (fun _ _ => false) true T (infer_detailed (fun _ _ => false) v) = false.
+Proof.
+  exists (TTuple [TInteger MinI MaxI; TString] true 1 2), (VArr [VInt 1]). vm_compute. repeat split; reflexivity.
+Qed.
+
+(* ---- the common type of two types accepts both of them ---- *)
+(* The full statement is this one without `ok`. *)
+Definition C04_common_statement (ok : (str -> str -> bool) -> ty -> ty -> bool) : Prop :=
+  forall (rx : str -> str -> bool) (a b : ty),
+    ok rx a b = true -> wf_ty a = true -> wf_ty b = true -> no_other (common rx a b) = true ->
+    asg rx true (common rx a b) a = true /\ asg rx true (common rx a b) b = true.
+
+(* Proved for every pair of (well-formed) types on which commonType does not reach, at any depth, the merge of two
+   Tuple types (common_ok = false there: the common element type is a fold of commonType and needs transitivity of
+   assignability, which the by-specification rule and Unit break — open findings byspec-struct-accepts-hash-common,
+   unit-outside-empty-collection) or a merge of two Variants in which UniqueTypes drops a member that is not
+   structurally equal to the one kept.  no_other (result): the result is neither the out-of-fuel marker nor
+   contains the aliases Data / RichData, which are not constructors of `ty` (missing constructor: TAlias; for a
+   top-level alias result see C04_common_alias). *)
+Theorem C04_common_ub_partial :
+  C04_common_statement (fun rx a b => common_ok rx (S (tsize a + tsize b)) a b).
+Proof. intros rx a b. apply common_ub. Qed.
+Print Assumptions C04_common_ub_partial.
+
+Example C04_common_nonvacuous :
+  let rx := fun _ _ => false in
+  let a := TArray (TVariant [TInteger 0 5; TStringVal [97%N]]) 1 2 in
+  let b := TArray (TVariant [TEnum false [[98%N]]; TFloat 1 1]) 3 3 in
+  let a' := TType (TNotUndef (TArray (TEnum true [[97%N]]) 0 1)) in
+  let b' := TType (TNotUndef (TArray (TStringVal [66%N]) 2 2)) in
+  common_ok rx (S (tsize a + tsize b)) a b = true /\ wf_ty a = true /\ wf_ty b = true /\
+  common rx a b = TArray (TVariant [TInteger 0 5; TStringVal [97%N]; TEnum false [[98%N]]; TFloat 1 1]) 1 3 /\
+  asg rx true (common rx a b) a = true /\ asg rx true (common rx a b) b = true /\
+  asg rx true a b = false /\ asg rx true b a = false /\
+  common rx a' b' = TType (TNotUndef (TArray (TEnum true [[97%N]; [98%N]]) 0 2)) /\
+  common_ok rx (S (tsize a' + tsize b')) a' b' = true /\
+  asg rx true (common rx a' b') a' = true /\ asg rx true (common rx a' b') b' = true /\
+  common rx (TInteger 1 1) (TStringVal [97%N]) = TScalarData /\
+  common rx (TArray (TInteger 1 1) 1 1) (THash TString TUndef 0 1) = TData.
+Proof. vm_compute. repeat split; reflexivity. Qed.
+
+(* open finding C04/unit-outside-empty-collection (and the reason for `common_ok`): two Tuple types whose
+   common type does not accept the first *)
+Example C04_unit_outside_empty_collection_refuted :
+  exists a b, wf_ty a = true /\ wf_ty b = true /\ no_other (common (fun _ _ => false) a b) = true /\
+              asg (fun _ _ => false) true (common (fun _ _ => false) a b) a = false.
+Proof.
+  exists (TTuple [THash TUnit TUnit 0 MaxI; THash (TInteger MinI MaxI) TString 0 MaxI] false 2 2),
+         (TTuple [TOptional (THash TString TString 0 MaxI)] false 1 1).
+  vm_compute. repeat split; reflexivity.
+Qed.
+
+(* ---- every value is an instance of its inferred (generic) type ---- *)
+(* iv_ok v: first order (no type used as a value inside: an array of types is an instance of Type[common ...] only
+   by transitivity of assignability, C03), no NaN (finding), and no alias Data / RichData at any step of the fold
+   (the aliases are not constructors of `ty`: missing constructor TAlias) — hence `_partial`.  The inferred type of
+   a collection is a fold of commonType; the proof shows that on the types inference produces commonType is a
+   semantic upper bound (C04_common_covers). *)
+Theorem C04_infer_inst_partial :
+  forall (rx : str -> str -> bool) (v : value), iv_ok rx v = true -> inst rx true (infer rx v) v = true.
+Proof. intros rx v H. exact (proj2 (infer_inst rx v H)). Qed.
+Print Assumptions C04_infer_inst_partial.
+
+Theorem C04_common_covers :
+  forall (rx : str -> str -> bool) (a b : ty) (x : value),
+    K a = true -> K b = true -> no_other (common rx a b) = true ->
+    inst rx true a x = true \/ inst rx true b x = true -> inst rx true (common rx a b) x = true.
+Proof. intros rx a b x. apply common_sem. Qed.
+Print Assumptions C04_common_covers.
+
+Example C04_infer_nonvacuous :
+  let rx := fun _ _ => false in
+  let a := VStr [97%N] in
+  let v := VArr [VArr [VArr [a]; VArr []]; VArr [VArr []; VArr [VInt 1]];
+                 VArr [VArr [VFloat 5; VInt 6]; VArr [VSensitive (VInt 1); VInt 2]]] in
+  iv_ok rx v = true /\
+  infer rx (VArr [VArr [VArr [a]; VArr []]; VArr [VArr []; VArr [VInt 1]]]) = TArray (TArray (TArray TScalarData 0 1) 2 2) 2 2 /\
+  infer rx (VHash [(a, VInt 1); (VStr [98%N], VInt 7)]) = THash (TEnum false [[97%N]; [98%N]]) (TInteger 1 7) 2 2 /\
+  infer rx v = TArray (TArray (TArray TAny 0 2) 2 2) 3 3 /\
+  inst rx true (infer rx v) v = true /\
+  (* the order of the elements matters: the wider element second (fixed defect common-returns-narrower) *)
+  infer rx (VArr [VArr [VInt 1]; VArr [VInt 1; a]]) = TArray (TArray TScalarData 1 2) 2 2 /\
+  inst rx true (infer rx (VArr [VArr [VInt 1]; VArr [VInt 1; a]])) (VArr [VArr [VInt 1]; VArr [VInt 1; a]]) = true.
+Proof. vm_compute. repeat split; reflexivity. Qed.
